@@ -602,6 +602,146 @@ pub fn run_random_case<I: MonItem>(case_seed: u64, rep: &mut Report, verbose: bo
 }
 
 // ------------------------------------------------------------------------------------------------
+// deep shapes: treaps that are paths of a few thousand nodes (caller-assigned priorities through the public fields, as
+// in the Increasing / Decreasing regimes, but far deeper than any random history gets). Every recursion of the
+// library - split, merge, insert, remove, push along a root-to-leaf path - runs thousands of levels deep here.
+
+/// a path-shaped treap built directly from nodes: node k+1 hangs under node k on the left (`dirs[k]`) or on the right;
+/// priorities fall strictly from the root downwards (in the library's heap direction), `parity` keeps the priorities
+/// of two such treaps disjoint and interleaved
+fn build_path<I: MonItem>(w: &mut World<I>, elems: &[I::Elem], dirs: &[bool], top_is_larger: bool, parity: u32) -> Live<I> {
+    let d = elems.len();
+    let first_id = w.next_id;
+    w.next_id += d as u32;
+    let mut cur: Option<Box<TreapNode<I>>> = None;
+    // in-order position of every node: walking up from the deepest node, a node whose child hangs on the left comes
+    // after everything below it, otherwise before
+    let mut order: std::collections::VecDeque<usize> = std::collections::VecDeque::with_capacity(d);
+    for k in (0..d).rev() {
+        let mut node = Box::new(lib!(TreapNode::new(I::make(first_id + k as u32, &elems[k]))));
+        let depth_rank = 2 * k as u32 + parity;
+        node.priority = if top_is_larger { 4_000_000_000 - depth_rank } else { 1_000 + depth_rank };
+        if k + 1 < d {
+            if dirs[k] {
+                node.left = cur.take();
+                order.push_back(k);
+            } else {
+                node.right = cur.take();
+                order.push_front(k);
+            }
+        } else {
+            order.push_back(k);
+        }
+        {
+            let TreapNode { item, left, right, .. } = &mut *node;
+            item.update(left.as_deref().map(|n| &n.item), right.as_deref().map(|n| &n.item));
+        }
+        cur = Some(node);
+    }
+    let mut t: Treap<I> = lib!(Treap::new());
+    t.root = cur;
+    let model: Vec<(u32, I::Elem)> = order.iter().map(|&k| (first_id + k as u32, elems[k].clone())).collect();
+    Live { treap: t, model }
+}
+
+pub fn run_deep_case<I: MonItem>(case_seed: u64, rep: &mut Report, verbose: bool) {
+    let mut rng = Rng::new(case_seed);
+    let replay = vec!["--mode".into(), "seq-deep".into(), "--case".into(), format!("{}:{}", I::name(), case_seed)];
+    rep.inc("evaluations");
+    rep.inc("deep_histories");
+    rep.see("nontrivial", mix(&[case_seed, 0xdee9]));
+    let mut w: World<I> = World::new(Regime::Uniform, case_seed, rep, replay);
+    let r = catch(|| {
+        // which way does the heap point? (root of the merge of priorities 1 and 2)
+        let top_is_larger = {
+            let (mut a, _) = w.single_with_priority(&I::gen_elem(&mut rng), 1);
+            let (mut b, _) = w.single_with_priority(&I::gen_elem(&mut rng), 2);
+            let _ = (&mut a, &mut b);
+            let t = lib!(Treap::merge(a, b));
+            t.root.as_ref().map(|r| r.priority == 2).unwrap_or(true)
+        };
+        let shapes = ["right_spine", "left_spine", "zigzag", "random", "long_runs"];
+        for parity in 0..2u32 {
+            let d = rng.range_usize(2100, 3400);
+            let shape = shapes[rng.usize_below(shapes.len())];
+            let dirs: Vec<bool> = (0..d)
+                .map(|k| match shape {
+                    "right_spine" => false,
+                    "left_spine" => true,
+                    "zigzag" => k % 2 == 0,
+                    "random" => rng.chance(1, 2),
+                    _ => (k / 97) % 2 == 0,
+                })
+                .collect();
+            let elems: Vec<I::Elem> = (0..d).map(|_| I::gen_elem(&mut rng)).collect();
+            w.log.push(format!("path-shaped treap of {} nodes, shape {}, priorities falling from the root (parity {})", d, shape, parity));
+            let live = build_path(&mut w, &elems, &dirs, top_is_larger, parity);
+            w.pool.push(live);
+            w.rep.see_str("deep_shapes", shape);
+        }
+        w.check_all("construction of the path-shaped treaps");
+        let nops = rng.range_usize(6, 14);
+        for _ in 0..nops {
+            w.drop_empty_and_excess();
+            let np = w.pool.len();
+            if np == 0 {
+                break;
+            }
+            let i = rng.usize_below(np);
+            let len = w.pool[i].model.len();
+            match rng.below(10) {
+                0 | 1 => {
+                    if np >= 2 {
+                        let mut j = rng.usize_below(np - 1);
+                        if j >= i {
+                            j += 1;
+                        }
+                        w.op_merge(i, j);
+                    }
+                }
+                2 | 3 => w.op_split_at(i, rng.range_usize(0, len)),
+                4 => w.op_split_by_prefix(i, rng.range_usize(0, len)),
+                5 => {
+                    if len > 0 {
+                        w.op_rotate(i, rng.range_usize(0, len));
+                    }
+                }
+                6 => {
+                    if len > 0 {
+                        let (a, b) = (rng.range_usize(0, len), rng.range_usize(0, len));
+                        w.op_range_attach(i, a.min(b), a.max(b), I::gen_mod(&mut rng), rng.chance(3, 4));
+                    }
+                }
+                7 => w.op_insert_at(i, rng.range_usize(0, len), I::gen_elem(&mut rng), true),
+                8 => {
+                    if len > 0 {
+                        w.op_remove_at(i, rng.usize_below(len));
+                    }
+                }
+                _ => {
+                    w.op_first_last(i, rng.chance(1, 2));
+                    w.op_size_root(i);
+                }
+            }
+            let last = w.log.last().cloned().unwrap_or_default();
+            w.check_all(&last);
+        }
+        if verbose {
+            for l in &w.log {
+                eprintln!("  {}", l);
+            }
+        }
+    });
+    if let Err(p) = r {
+        if p.in_lib {
+            w.violation("panic", Json::obj().set("what", "the library panicked on a lawful operation on a deep (path-shaped) treap").set("panic", p.msg.as_str()).set("at", format!("{}:{}", p.file, p.line)));
+        } else {
+            w.rep.inconclusive(format!("harness panic at {}:{}: {}", p.file, p.line, p.msg));
+        }
+    }
+}
+
+// ------------------------------------------------------------------------------------------------
 // bounded-exhaustive scope: every weak ordering of the priorities of n elements x every op sequence
 
 /// all weak orderings of n items as rank vectors (ranks 0..k form an initial segment)
